@@ -136,6 +136,15 @@ def create_utc_property(name:str, docs:str) -> property:
 
     return property(p_get, p_set, doc=docs)
 
+def _tag_non_default_date_time(name: str, value) -> None:
+    """Add VALUE=DATE-TIME to a date-time value of a property whose default
+    value type is DURATION (TRIGGER), as RFC 5545 3.8.6.3 requires."""
+    if types_factory.types_map.get(name) == 'duration' \
+            and isinstance(value, vDDDTypes) \
+            and isinstance(value.dt, datetime):
+        value.params['VALUE'] = 'DATE-TIME'
+
+
 class Component(CaselessDict):
     """Component is the base object for calendar, Event and the other
     components defined in RFC 5545. Normally you will not use this class
@@ -220,6 +229,7 @@ class Component(CaselessDict):
         else:
             klass = types_factory.for_property(name)
             obj = klass(value)
+        _tag_non_default_date_time(name, obj)
         if parameters:
             if not hasattr(obj, "params"):
                 obj.params = Parameters()
@@ -657,6 +667,7 @@ def create_single_property(
         if not isinstance(value, value_type):
             raise TypeError(f"Use {' or '.join(t.__name__ for t in value_type)}, not {type(value).__name__}.")
         self[prop] = vProp(value)
+        _tag_non_default_date_time(prop, self[prop])
         if prop in self.exclusive:
             for other_prop in self.exclusive:
                 if other_prop != prop:
